@@ -15,6 +15,9 @@ inductive Loc | here | there
 
 inductive Op
   | tell | tellValue | ask | kill | poison | watch | unwatch | watchTwin | unwatchTwin | ping | pipeOk | pipeFail
+  -- the same operations against a target that is busy (a backlog of user messages) or already stopping:
+  -- system messages keep their priority and are still handled while stopping, wherever the sender is
+  | killBusy | poisonBusy | watchStopping
   deriving Repr, DecidableEq
 
 /-- Built-in messages the operation puts on the wire (in either direction) for a target at `t`
@@ -24,6 +27,9 @@ def wire (op : Op) (t f : Loc) : List String :=
   match op, t, f with
   | .kill, .there, _ => ["OnKill"]
   | .poison, .there, _ => ["OnKill"]
+  | .killBusy, .there, _ => ["OnKill"]
+  | .poisonBusy, .there, _ => ["OnKill"]
+  | .watchStopping, .there, _ => ["OnKilled", "WatchMessage"]
   | .watch, .there, _ => ["OnKilled", "WatchMessage"]
   | .unwatch, .there, _ => ["UnwatchMessage", "WatchMessage"]
   -- a second watcher with the caller's very path lives on the other system: one of the two is remote
@@ -62,6 +68,12 @@ def effect : Op → String
   | .ping => "caller pong"
   | .pipeOk => "fwd piperesult msg=1009/re err=nil; target got 9/p from future"
   | .pipeFail => "fwd piperesult msg=nil err=error; target got 9/p from future"
+  -- an immediate Kill is a system message: it overtakes the three user messages queued behind the one being handled
+  | .killBusy => "target got 1/first from caller; target onkill killer=caller poison=false reason=why; target terminated"
+  -- a poison pill waits its turn in the user queue
+  | .poisonBusy => "target got 1/first from caller; target got 2/q from caller; target got 3/q from caller; target got 4/q from caller; target onkill killer=caller poison=true reason=why; target terminated"
+  -- a Watch that reaches an actor which is already stopping (waiting for a child) still registers the watcher
+  | .watchStopping => "caller onkilled ref=target"
 
 /-- What remains observable when a built-in message of the operation is lost in decoding. -/
 def lost : Op → String
